@@ -75,8 +75,9 @@ Definition reaches (fuel : nat) (k : container) (o : obs) (pos : position) : boo
 Definition reaches_arg (fuel : nat) (f : obs) : bool :=
   is_probe (run fuel (KFun f) None (OCall AProbe)).
 
-(** * The closed form for single observers on a flat array of length [n] (the result is then
-    exported, i.e. forced).  [None]: no closed form stated here. *)
+(** * The closed form for single observers on a flat array of [n] numbers (the result is then
+    exported, i.e. forced): which positions the observer reaches, by index arithmetic only.
+    [None]: no closed form stated here.  ReachTable.v proves that [reaches] agrees with it. *)
 Definition strict_fun (f : obs) : option bool :=
   match f with
   | OId | OAddK _ | OGtK _ | OEqK _ => Some true
@@ -88,18 +89,19 @@ Definition reach_table (o : obs) (n p : nat) : option bool :=
   if negb (Nat.ltb p n) then None else
   match o with
   | OId | OSeq | ODeepSeq | OSerde | OReverse => Some true
-  | OAtP i | OAt i => if Nat.ltb i n then Some (Nat.eqb i p) else None
+  | OAtP i => if Nat.ltb i n then Some (Nat.eqb i p) else None
+  | OAt i => if Nat.ltb i n then Some (Nat.eqb i p) else None
   | OFirst => Some (Nat.eqb p 0)
   | OLast => Some (Nat.eqb p (n - 1))
   | OLength => Some false
   | OMap f => strict_fun f
-  | OSliceP s e | OSlice s e =>
-      if Nat.leb s e && Nat.leb e n then Some (Nat.leb s p && Nat.ltb p e) else None
-  | OFoldL F2Add _ | OFoldR F2Add _ => Some true
+  | OSliceP s e => if Nat.leb s e && Nat.leb e n then Some (Nat.leb s p && Nat.ltb p e) else None
+  | OSlice s e => if Nat.leb s e && Nat.leb e n then Some (Nat.leb s p && Nat.ltb p e) else None
+  | OFoldL F2Add _ => Some true
   | OFoldL F2Count _ | OFoldL F2Fst _ | OFoldL (F2Const _) _ => Some false
-  | OFoldL F2Snd _ | OFoldL (F2SndAdd _) _ => Some true     (* %seq% forces every next_acc *)
+  | OFoldR F2Add _ => Some true
   | OFoldR F2Snd _ | OFoldR (F2Const _) _ | OFoldR (F2SndAdd _) _ => Some false
-  | OFoldR F2Fst _ => Some (Nat.eqb p 0)
+  | OFoldR F2Fst _ | OFoldR F2Count _ => Some (Nat.eqb p 0)
   | _ => None
   end.
 
